@@ -81,6 +81,31 @@ def main():
             rr = routes.run_exe(os.path.join(d, 'x.exe'), d) if g is not None and g.rc == 0 else None
             res.append(('opts', co, p, g, rr, injective(c, fm) if c else None, len(c or {})))
             shutil.rmtree(d, ignore_errors=True)
+        # the split boundary: the smallest -Csmax for which the unit is NOT split, found by bisection on the number of files
+        # written, then smax = K-1, K, K+1 built and run (added after seeded change C16-smax-boundary: the file-splitting loop
+        # and the macro that decides naming/linkage must agree exactly at the boundary; fixed smax values never sit on it)
+        if ctx.tier == 'thorough' or j % 3 == 0 or pr['name'] == 'idpack':
+            def nfiles(smax):
+                dd = os.path.join(base, '%d-bis' % j); shutil.rmtree(dd, ignore_errors=True); progset.place(dd, pr)
+                pq = routes.aldor(b, ['-Q2', '-Mno-warnings', '-Csmax=%d' % smax] + progset.inc(pr) + ['-Fc', 'x.as'], dd, lib=pr['lib'], timeout=120)
+                k = len([f for f in os.listdir(dd) if f.endswith('.c')]) if pq.rc == 0 else None
+                shutil.rmtree(dd, ignore_errors=True); return k
+            lo_, hi_ = 1, 8192
+            n_hi = nfiles(hi_); n_lo = nfiles(lo_)
+            if n_hi is not None and n_lo is not None and n_lo > n_hi:
+                while hi_ - lo_ > 1:
+                    mid = (lo_ + hi_) // 2
+                    k = nfiles(mid)
+                    if k is None: break
+                    if k > n_hi: lo_ = mid
+                    else: hi_ = mid
+                for smax in (hi_ - 1, hi_, hi_ + 1):
+                    co = ['-Csmax=%d' % smax]
+                    d = os.path.join(base, '%d-bnd%d' % (j, smax))
+                    p, g, c, fm = build(d, pr, co)
+                    rr = routes.run_exe(os.path.join(d, 'x.exe'), d) if g is not None and g.rc == 0 else None
+                    res.append(('opts', co + ['(split boundary %+d)' % (smax - hi_)], p, g, rr, injective(c, fm) if c else None, len(c or {})))
+                    shutil.rmtree(d, ignore_errors=True)
         for idl in (IDL if ctx.tier == 'thorough' or pr['name'] == 'idpack' else r.sample(IDL, 2)):
             co = ['-Cidlen=%d' % idl, '-Cidhash']
             d = os.path.join(base, '%d-idlen%d' % (j, idl))
